@@ -30,6 +30,12 @@ Channel_handleEvent_runs (tied guard : bool) : bool,  Channel_handleEvent_guard_
 EventLoop_loop_dispatches_snapshot : bool
     EventLoop::loop: the while body clears activeChannels_, fills it by poller_->poll(.., &activeChannels_)
     and then calls handleEvent on EVERY element of it, with no test in the range-for body.
+Poller_newDefaultPoller_uses_poll (MUDUO_USE_POLL_set : bool) : bool
+    Poller::newDefaultPoller: which class each branch of `if (::getenv("MUDUO_USE_POLL"))` constructs
+    (true = PollPoller, false = EPollPoller); link lemma C09_ProofsLoop.default_backend_link.
+Poller_hasChannel_is_map_lookup, Poller_entry_points_assert_thread : bool
+    Poller::hasChannel returns `it != channels_.end() && it->second == channel` for it = channels_.find(channel->fd());
+    updateChannel / removeChannel of both back-ends and hasChannel start with assertInLoopThread().
 EventLoop_queueInLoop_wake_guard (isInLoopThread callingPendingFunctors looping : bool) : bool
     the condition under which queueInLoop calls wakeup(), translated from its if-statement
     (link lemma C09_ProofsLoop.queue_wake_link).
@@ -671,6 +677,76 @@ def queue_facts():
     return guard, after, stage == 3
 
 
+# ---- Poller::newDefaultPoller, Poller::hasChannel, assertInLoopThread -------------------------------
+def new_class(stmt):
+    names = [n.get("type", {}).get("qualType", "") for n in cxxast.walk(stmt) if n.get("kind") == "CXXNewExpr"]
+    if len(names) != 1:
+        raise Untr("%d new-expressions in a branch of newDefaultPoller" % len(names))
+    t = names[0]
+    if "EPollPoller" in t:
+        return "false"
+    if "PollPoller" in t:
+        return "true"
+    raise Untr("unknown poller class %s" % t)
+
+
+def default_poller():
+    fn = cxxast.function_decl("muduo/net/poller/DefaultPoller.cc", "Poller::newDefaultPoller")
+    ifs = [st for st in kids(cxxast.body(fn)) if st.get("kind") == "IfStmt"]
+    if len(ifs) != 1:
+        raise Untr("%d if statements" % len(ifs))
+    inner = kids(ifs[0])
+    cond = inner[0]
+    calls = [n for n in cxxast.walk(cond) if n.get("kind") == "CallExpr"]
+    lits = [n.get("value") for n in cxxast.walk(cond) if n.get("kind") == "StringLiteral"]
+    refs = [n.get("referencedDecl", {}).get("name") for n in cxxast.walk(cond) if n.get("kind") == "DeclRefExpr"]
+    if len(calls) != 1 or "getenv" not in refs or lits != ['"MUDUO_USE_POLL"']:
+        raise Untr("condition is not ::getenv(\"MUDUO_USE_POLL\") (calls=%d refs=%s lits=%s)" % (len(calls), refs, lits))
+    negated = cxxast.strip(cond).get("kind") == "UnaryOperator" and cxxast.strip(cond).get("opcode") == "!"
+    if len(inner) < 3:
+        raise Untr("no else branch")
+    t, e = new_class(inner[1]), new_class(inner[2])
+    if negated:
+        t, e = e, t
+    return "(if MUDUO_USE_POLL_set then %s else %s)" % (t, e)
+
+
+def first_is_thread_assert(relfile, qual):
+    fn = cxxast.function_decl(relfile, qual)
+    st = [c for c in kids(cxxast.body(fn))]
+    if not st:
+        return False
+    node = cxxast.strip(st[0])
+    return node.get("kind") == "CXXMemberCallExpr" and member_name(node)[0] == "assertInLoopThread"
+
+
+def poller_facts():
+    asserts = all(first_is_thread_assert(f, q) for f, q in (
+        ("muduo/net/poller/EPollPoller.cc", "EPollPoller::updateChannel"), ("muduo/net/poller/EPollPoller.cc", "EPollPoller::removeChannel"),
+        ("muduo/net/poller/PollPoller.cc", "PollPoller::updateChannel"), ("muduo/net/poller/PollPoller.cc", "PollPoller::removeChannel"),
+        ("muduo/net/Poller.cc", "Poller::hasChannel")))
+    fn = cxxast.function_decl("muduo/net/Poller.cc", "Poller::hasChannel")
+    params = [c.get("name") for c in kids(fn) if c.get("kind") == "ParmVarDecl"]
+    body = cxxast.body(fn)
+    finds = [n for n in cxxast.walk(body) if n.get("kind") == "CXXMemberCallExpr" and member_name(n)[0] == "find"]
+    find_ok = len(finds) == 1 and object_of(member_name(finds[0])[1]).get("name") == "channels_" and \
+        any(is_call_on_param(m, "fd", params) for m in cxxast.walk(finds[0]))
+    rets = [n for n in cxxast.walk(body) if n.get("kind") == "ReturnStmt"]
+    ret_ok = False
+    if len(rets) == 1:
+        e = cxxast.strip(kids(rets[0])[0])
+        if e.get("kind") == "BinaryOperator" and e.get("opcode") == "&&":
+            l, r = e["inner"][0], e["inner"][1]
+            lnames = [n.get("referencedDecl", {}).get("name") for n in cxxast.walk(l) if n.get("kind") == "DeclRefExpr"]
+            lends = [n for n in cxxast.walk(l) if n.get("kind") == "CXXMemberCallExpr" and member_name(n)[0] == "end"]
+            rsecond = [n for n in cxxast.walk(r) if n.get("kind") == "MemberExpr" and n.get("name") == "second"]
+            rparam = [n for n in cxxast.walk(r) if n.get("kind") == "DeclRefExpr" and n.get("referencedDecl", {}).get("name") in params]
+            rcmp = cxxast.strip(r)
+            ret_ok = "operator!=" in lnames and bool(lends) and bool(rsecond) and bool(rparam) and \
+                rcmp.get("kind") == "BinaryOperator" and rcmp.get("opcode") == "=="
+    return find_ok and ret_ok, asserts
+
+
 def cmt(s):
     return s.replace("(*", "( *").replace("*)", "* )")
 
@@ -745,6 +821,20 @@ def main():
     except Exception as e:  # noqa
         print("MISSING EventLoop_loop_dispatches_snapshot (%s)" % e)
         out.append("(* MISSING EventLoop_loop_dispatches_snapshot: %s *)" % cmt(str(e)))
+    try:
+        out.append("(* muduo/net/poller/DefaultPoller.cc newDefaultPoller: which poller each branch of if (::getenv(\"MUDUO_USE_POLL\")) constructs *)")
+        out.append("Definition Poller_newDefaultPoller_uses_poll (MUDUO_USE_POLL_set : bool) : bool :=\n  %s." % default_poller())
+    except Exception as e:  # noqa
+        print("MISSING Poller_newDefaultPoller_uses_poll (%s)" % e)
+        out.append("(* MISSING Poller_newDefaultPoller_uses_poll: %s *)" % cmt(str(e)))
+    try:
+        lookup, asserts = poller_facts()
+        out.append("(* muduo/net/Poller.cc hasChannel; assertInLoopThread() first in updateChannel/removeChannel (both back-ends) and hasChannel *)")
+        out.append("Definition Poller_hasChannel_is_map_lookup : bool := %s." % ("true" if lookup else "false"))
+        out.append("Definition Poller_entry_points_assert_thread : bool := %s." % ("true" if asserts else "false"))
+    except Exception as e:  # noqa
+        print("MISSING Poller_hasChannel_is_map_lookup (%s)" % e)
+        out.append("(* MISSING Poller_hasChannel_is_map_lookup: %s *)" % cmt(str(e)))
     try:
         guard, after, swaps = queue_facts()
         out.append("(* muduo/net/EventLoop.cc queueInLoop: wakeup() is called iff ..; loop(): doPendingFunctors() after the dispatch loop; doPendingFunctors *)")
